@@ -37,7 +37,7 @@ func init() {
 			Check: []scanCfg{mixed, tr}, Export: []scanCfg{mixed, tr}, MaxAPI: 6000, MaxCLIFromTLC: 120,
 			NRandom: 120, MaxTraces: 60,
 			Gen:   genParams{NBlob: 10, NTree: 12, NCommit: 8, NTag: 5, MaxEnt: 4, MaxBlob: 300, Merges: true, RootKinds: "mixed", SpecialNames: true},
-			Fails: scanFails["C08"], CrossFormat: true, Extra: append(tagChainCases("c08"), rootKindCases("c08")...),
+			Fails: scanFails["C08"], CrossFormat: true, Extra: append(append(tagChainCases("c08"), rootKindCases("c08")...), peelQuirkCase("c08")),
 			Rule: "TLC families Mixed (roots of every kind incl. ref->tree, ref->tag->tree, ROOT arguments of plain and path form; styles none/hash/full) and Trees, all orders: Scan!C08_* invariants (witness attains, description resolves in the rev-parse model); every behaviour replayed at API level (descriptions compared with the model's rendering); TLC graphs and random repositories scanned by the binary with all three name styles, every printed description resolved by git rev-parse itself and judged by TLC; distinct = distinct (graph, roots, style, order)",
 		}
 		if !quick(c) {
